@@ -47,6 +47,24 @@ pub fn generate(g: &mut Gen) {
             }
         }
     }
+    // LONG vectors and large maps (beyond any block size an implementation might split the work into: 1023 … 5000 elements,
+    // not multiples of 1024; a 3 x 20 x 21 map): every element is still the function of its own input
+    for a in ACTS.iter() {
+        let tol = if ["softmax", "sigmoid", "tanh"].contains(a) { Tol::Tight } else { Tol::Exact };
+        for n in [1023usize, 1025, 1500, 2047, 3000, 5000] {
+            if !g.ctx.thorough() && (n == 1500 || n == 3000) && *a != "sigmoid" { continue; }
+            if *a == "softmax" && n > 2047 { continue; }
+            let v: Vec<f32> = (0..n).map(|i| ((i * 37 % 101) as f32 - 50.0) * 0.06 + if i % 7 == 0 { 0.0123 } else { -0.0071 }).collect();
+            let t1 = Tensor::single(v);
+            g.push(format!("act.fwd {} {}", a, qt(&t1)), tol, &format!("{}/fwd/long", a), true);
+            g.push(format!("act.bwd {} {}", a, qt(&t1)), tol, &format!("{}/bwd/long", a), true);
+        }
+        if *a != "softmax" {
+            let t3 = Tensor::triple((0..3).map(|c| (0..20).map(|r| (0..21).map(|k| ((c * 420 + r * 21 + k) as f32 * 0.013).sin() * 3.0).collect()).collect()).collect());
+            g.push(format!("act.fwd {} {}", a, qt(&t3)), tol, &format!("{}/fwd/large-map", a), true);
+            g.push(format!("act.bwd {} {}", a, qt(&t3)), tol, &format!("{}/bwd/large-map", a), true);
+        }
+    }
     // consecutive calls on inputs that differ by a few 1e-6 (across the kink): every call answers for its own input
     for a in ACTS.iter() {
         let tol = if ["softmax", "sigmoid", "tanh"].contains(a) { Tol::Tight } else { Tol::Exact };
